@@ -34,6 +34,14 @@ def argmaxL (f : Nat → α) : List Nat → Nat
   | [] => 0
   | s :: l => argmaxFrom f l s
 
+/-- last maximiser (an alternative tie-break inside the proved policy family) -/
+def argmaxLastFrom (f : Nat → α) : List Nat → Nat → Nat
+  | [], b => b
+  | s :: l, b => if f s < f b then argmaxLastFrom f l b else argmaxLastFrom f l s
+def argmaxLast (f : Nat → α) : List Nat → Nat
+  | [] => 0
+  | s :: l => argmaxLastFrom f l s
+
 /-- first position of the maximum of `f` on `[i, i+len)` given the best so far `b` -/
 def argmaxRange (f : Nat → α) : Nat → Nat → Nat → Nat
   | _, 0, b => b
